@@ -240,6 +240,17 @@ def zero_established(p, target):
                     at1 = CMP[op](0, 1) if flip else CMP[op](1, 0)
                     if at0 != at1 and c[2] == at0:
                         return True
+            # two quantities compared with each other (`delivered >= declared`): the comparison of their difference with 0
+            if absint.const_of(a) is None and absint.const_of(b) is None:
+                la, lb = linear(a), linear(b)
+                diff = norm({k: la.get(k, 0) - lb.get(k, 0) for k in set(la) | set(lb)})          # a - b
+                for d_, flip in ((diff, False), ({k: -v for k, v in diff.items()}, True)):
+                    if d_ == target:
+                        # flip=False: (owed OP 0);  flip=True: (0 OP owed)
+                        at0 = CMP[op](0, 0)
+                        at1 = CMP[op](0, 1) if flip else CMP[op](1, 0)
+                        if at0 != at1 and c[2] == at0:
+                            return True
         elif c[2] == 0 and not isinstance(c[2], bool) and norm(linear(c[1])) == target:
             return True
     return False
@@ -251,7 +262,8 @@ def owed_rules(ctx, rule, adt, size_key, rules=None):
     M = dmodel(facts, adt)
     where = "%s:%d" % (M.d.file, M.d.line)
     R = rules or {}
-    ps = [p for p in M.paths({size_key: SIZE}) if p.end[0] not in DEAD]
+    init = size_key if isinstance(size_key, dict) else {size_key: SIZE}
+    ps = [p for p in M.paths(init) if p.end[0] not in DEAD]
     ctx.paths += len(ps)
     bad_b, bad_x = [], []
     n_reads = 0
